@@ -238,6 +238,12 @@ fn shrink_e1_raw(s: &E1Scn) -> Vec<E1Scn> {
 
 pub fn oracle_c04(out: &RunOut) -> Vec<Violation> {
     let mut vs = Vec::new();
+    // every child carries the kill-on-drop wrapper (a dropped handle must not leave a live process behind)
+    for r in &out.hist {
+        if let Ev::Spawn { child, kill_on_drop: false, .. } = &r.ev {
+            vs.push(Violation::new("no-kill-on-drop", "", format!("child {child} was spawned without the kill-on-drop wrapper")));
+        }
+    }
     // monitor over the history in log order
     let mut live: Vec<(u8, u32)> = Vec::new(); // (job, child): spawned, not yet reaped, not dropped
     for r in &out.hist {
